@@ -27,6 +27,7 @@ Names(S) == IF S = {} THEN "" ELSE LET k == CHOOSE x \in S : TRUE IN k \o " " \o
 StepChecks(e) ==
     IF IsPanic(e.res) THEN {Bad(e, "handler-panicked")}
     ELSE IF IsPanic(e.resb) THEN {Bad(e, "handler-panicked-on-honest-input")}
+    ELSE IF e.crash_only THEN {}        \* a lite client does not validate: only crash freedom is demanded of it
     ELSE
       (IF ~diverged /\ Differing(e) # {}
        THEN {Bad(e, (IF e.hostile THEN "hostile-input-changed-honest-view: " ELSE "honest-view-diverged-later: ") \o Names(Differing(e)))}
